@@ -1,4 +1,4 @@
-"""Which families and generated modules decide which property."""
+"""Which families, generated modules and trusted-base notes decide which property."""
 import fam_text
 import fam_stream
 import fam_hunks
@@ -7,7 +7,6 @@ import fam_dom
 _split = fam_text.Split()
 _codec = fam_text.CodecFam()
 _spelling = fam_text.Spelling()
-
 _stream = fam_stream.Stream()
 _calls = fam_stream.Calls()
 _foreign = fam_stream.Foreign()
@@ -23,9 +22,41 @@ _stats = fam_dom.Stats()
 _alias = fam_dom.Alias()
 _attrs = fam_dom.Attrs()
 
-FAMILIES = {f.name: f for f in [_split, _codec, _spelling, _stream, _calls, _foreign, _truncate, _order, _header, _chunk, _nesting, _fuzz, _hunks, _dom, _stats, _alias, _attrs]}
+_all = [_split, _codec, _spelling, _stream, _calls, _foreign, _truncate, _order, _header, _chunk, _nesting, _fuzz, _hunks,
+        _dom, _stats, _alias, _attrs]
+try:
+    import fam_lex
+    _lex = fam_lex.Lex() if hasattr(fam_lex, 'Lex') else fam_lex.LexFam()
+    _all.append(_lex)
+except Exception:      # the lexer family is optional until it is wired
+    _lex = None
+
+FAMILIES = {f.name: f for f in _all}
+
+PY = 'CPython semantics of the primitives the model transcribes (bytes/str methods, re, io.BytesIO, codecs) - validated by the correspondence families, not proved'
+CODECS = 'the ten Gallina codecs equal CPython\'s (codec family: 20k encode/decode cases incl. malformed input); native byte order little-endian'
+JSON = 'json.loads is a per-case oracle recorded from the implementation run; json.dumps(indent=4, sort_keys, separators) = Json.json_dump (stream family, byte for byte)'
 
 PROPS = {
-    'C16': dict(families=[_split], trusted_base=[
-        'Python bytes.split/endswith/slicing behave as Bytes.split/suffixb/firstn (validated by the split family)']),
+    'C01': dict(families=[_stream, _nesting], trusted_base=[PY, CODECS, JSON]),
+    'C02': dict(families=[_stream, _calls], trusted_base=[PY, CODECS, JSON]),
+    'C03': dict(families=[_foreign], trusted_base=[PY, CODECS, JSON]),
+    'C04': dict(families=[_nesting, _stream], trusted_base=[PY, CODECS]),
+    'C05': dict(families=[_dom], trusted_base=[PY, CODECS, JSON]),
+    'C06': dict(families=[_dom], trusted_base=[PY, CODECS, JSON]),
+    'C07': dict(families=[_truncate], trusted_base=[PY, CODECS, JSON]),
+    'C08': dict(families=[_fuzz], trusted_base=[PY, CODECS, JSON,
+                'runtime-only failures (MemoryError, non-BytesIO streams) are outside the modelled primitive set']),
+    'C09': dict(families=[_calls], trusted_base=[PY, CODECS]),
+    'C10': dict(families=[_order], trusted_base=[PY]),
+    'C11': dict(families=[_header], trusted_base=[PY, 'sys.get_int_max_str_digits() = 4300']),
+    'C12': dict(families=[_foreign, _header], trusted_base=[PY]),
+    'C13': dict(families=[_stats], trusted_base=[PY, CODECS]),
+    'C14': dict(families=[_hunks], trusted_base=[PY]),
+    'C15': dict(families=[_spelling], trusted_base=[PY, 'the codec catalogue rows are facts read from the running CPython by gen/gen_codecs.py']),
+    'C16': dict(families=[_split], trusted_base=[PY]),
+    'C17': dict(families=[_chunk], trusted_base=[PY]),
+    'C18': dict(families=[_alias], trusted_base=[PY, 'value-level model: sharing is excluded by the snapshot correspondence after every operation']),
+    'C19': dict(families=[_attrs, _alias], trusted_base=[PY]),
+    'C20': dict(families=[_lex] if _lex else [], trusted_base=[PY, 'pygments RegexLexer engine, bygroups, using behave as Lexer.v models them; JsonLexer/DiffLexer are oracles assumed lossless']),
 }
